@@ -81,10 +81,15 @@ def run(chk):
                    "V8 as the meaning of JavaScript (oracle)", "node runner encode/decode", "lexing of the concatenated spellings back into the model's tokens is not proved"]
     chk.assumptions = ["parse_print (GE/Thm/C14Parse.lean): the token-level model of the expression parser (its precedence chain is the extracted parse_left_to_right! chain) reads "
                        "back every printed expression as the tree that was printed; the model parser is compared with the real parser on every generated source "
-                       "(corr:wparse). gen_preserves (the value of the generated JavaScript) is established by the V8 oracle only",
+                       "(corr:wparse). gen_preserves (GE/Thm/C03Sem.lean): for every expression without a spread operand, after the hoisted var statements have run the emitted "
+                       "value tree evaluates to the value of the WXML expression (null-safe reads through X, calls through P, ?? through its temporary, conditionals and "
+                       "index expressions through their hoisted operands), for EVERY total, side-effect-free interpretation of the primitive operations; spread operands "
+                       "(Object.assign / concat) and operations that throw (finding D26) are outside that theorem: V8 oracle",
                        "callee functions are pure; throwing cases (instanceof with a non-callable right operand) count as equal when both sides throw",
                        "float literals are carried as Rust-printed text; their value is compared through V8 only"]
-    chk.model_tie([("GE.Thm.C02Expr", THEOREMS), ("GE.Thm.C14Parse", ["GE.Parse.parse_print", "GE.Parse.parse_print_id", "GE.Parse.bin_table", "GE.Parse.un_table"])])
+    chk.model_tie([("GE.Thm.C02Expr", THEOREMS), ("GE.Thm.C14Parse", ["GE.Parse.parse_print", "GE.Parse.parse_print_id", "GE.Parse.bin_table", "GE.Parse.un_table"]),
+                   ("GE.Thm.C03Sem", ["GE.Sem.gen_preserves", "GE.Sem.body_sem", "GE.Sem.args_sem", "GE.Sem.obj_sem", "GE.Sem.arr_sem", "GE.Sem.stable",
+                                      "GE.Sem.fresh_of_scopes", "GE.Sem.evalJs_congr"])])
 
     trees = eg.enum_depth2()
     # member reads on every data field (the pool gives each of them a falsy non-nullish value in some environment:
